@@ -17,8 +17,8 @@ import subprocess
 import sys
 import time
 
-V = '/verif'
-REPO = '/repo'
+V = os.environ.get('VERIF_ROOT', '/verif')
+REPO = os.environ.get('VERIF_REPO', '/repo')
 BUILD = V + '/build'
 COQ = V + '/coq'
 WORK = V + '/work'
@@ -192,6 +192,17 @@ def build_harness():
 def build_oracle(which):
     p = sh([V + '/bin/build_oracles.sh', which])
     return p.returncode == 0, (p.stdout + p.stderr)[-3000:]
+
+
+def ensure_oracle(ctx, which, vo_targets, dep_dirs):
+    """Build (if stale) the oracle executable build/<which>_oracle extracted by
+    coq/theories/Extract/<Which>Oracle.v.  vo_targets: the .vo files it extracts from."""
+    ok, out = coq_make(ctx, vo_targets)
+    if not ok:
+        return False, out
+    if oracle_stale(which, [COQ + '/theories/' + d for d in dep_dirs] + [V + '/tools/oracle']):
+        return build_oracle(which)
+    return True, ''
 
 
 def oracle_stale(which, deps):
